@@ -367,6 +367,7 @@ type recPlan struct {
 	SRMode   int          `json:"srmode"` // 0 none, 1 both tracks before the start, 2 anywhere, 3 before the start and anywhere
 	Faults   bool         `json:"faults"`
 	MaxDisp  int          `json:"maxdisp"`
+	LateDups int          `json:"latedups,omitempty"` // copies of packets that arrive around or beyond the reorder window after the original
 }
 
 func recStartSeq(tp *simrt.Tape) uint16 {
@@ -502,13 +503,18 @@ func genRecPlan0(tp *simrt.Tape, seed uint64, tier string) *recPlan {
 	}
 	p.UptimeS = []int{31, 0, 3600}[tp.Weighted(3, 1, 1)]
 	p.Faults = !tp.Chance(1, 3)
-	lossP, dupP, reoP := 0, 0, 0
+	lossP, dupP, reoP, lateDupP := 0, 0, 0, 0
 	tailHole := false
 	if p.Faults {
 		lossP = []int{0, 0, 1, 3}[tp.Draw(4)]
 		dupP = []int{0, 1, 5}[tp.Draw(3)]
 		reoP = []int{0, 2, 10}[tp.Draw(3)]
 		tailHole = tp.Chance(1, 4)
+		// a copy of a packet that arrives long after the original, beyond
+		// the reorder window (a duplicating network path with a long queue)
+		if tp.Chance(1, 4) {
+			lateDupP = []int{5, 20}[tp.Draw(2)]
+		}
 	}
 	var all []recEmit
 	for t, sp := range []*recStream{p.Audio, p.Video} {
@@ -555,6 +561,14 @@ func genRecPlan0(tp *simrt.Tape, seed uint64, tier string) *recPlan {
 			all = append(all, recEmit{t, i, timeOf(i), pkts[i].Frame, i - frames[pkts[i].Frame].First})
 			if dupP > 0 && tp.Chance(dupP, 100) {
 				all = append(all, recEmit{t, i, timeOf(i), pkts[i].Frame, i - frames[pkts[i].Frame].First})
+			}
+			if lateDupP > 0 && tp.Chance(lateDupP, 1000) {
+				w := 256 // the recorder's reorder window for video, 32 for audio
+				if sp.audio() {
+					w = 32
+				}
+				held = append(held, pend{i, i + w - 4 + tp.Draw(w)})
+				p.LateDups++
 			}
 		}
 		if len(pkts) > 0 {
@@ -816,7 +830,8 @@ type recWrite struct {
 	fetchIdx    int
 	// packets this call jumped over that were in the server's cache for the
 	// whole duration of the call: "can be recovered from the packet cache"
-	gap         [][2]int // (packet, ordinal of its Store), candidates noted on entry
+	gap         [][2]int // (packet, ordinal of its Store), candidates noted when the call got the recording's lock
+	gapDone     bool
 	recoverable []int
 }
 
@@ -1056,6 +1071,34 @@ func (w *recWorld) adopt(s *recSession, cn *diskwriter.VerifConn) {
 	}
 }
 
+// noteGap is called at the first thing a call of diskTrack.Write does with
+// the recording's lock held (a fetch, or handing its own packet to the
+// sample builder): if the packet of the call jumps ahead of everything the
+// recorder has seen, the packets it jumps over that are in the server's
+// cache are noted as candidates for "can be recovered from the cache".
+// The order in which calls enter Write is not the order in which they get
+// the lock (the replay from the cache runs in its own goroutine).
+func (w *recWorld) noteGap(st *recSessTrack) {
+	l := w.inflight[simrt.CurrentTaskID()]
+	if len(l) == 0 {
+		return
+	}
+	wr := l[len(l)-1]
+	if wr.gapDone {
+		return
+	}
+	wr.gapDone = true
+	t := st.trk
+	// (the recorder looks into the cache for jumps of less than 256 packets)
+	if wr.idx > st.maxIdx && st.maxIdx >= 0 && wr.idx-st.maxIdx < 256 {
+		for q := st.maxIdx + 1; q < wr.idx; q++ {
+			if k, ok := t.lastStore[t.pkts[q].Seq]; ok && k < t.nStoreOut {
+				wr.gap = append(wr.gap, [2]int{q, k})
+			}
+		}
+	}
+}
+
 func (w *recWorld) noteFile(cn *diskwriter.VerifConn) {
 	if name := cn.VerifFileName(); name != "" {
 		if f := w.files[name]; f == nil {
@@ -1113,18 +1156,6 @@ func (w *recWorld) installProbes() {
 			}
 			st.writes = append(st.writes, wr)
 			w.inflight[task] = append(w.inflight[task], wr)
-			if t := st.trk; wr.idx > st.maxIdx {
-				// a jump forward: the recorder meets a gap (it looks into the
-				// cache for jumps of less than 256 packets)
-				if st.maxIdx >= 0 && wr.idx-st.maxIdx < 256 {
-					for q := st.maxIdx + 1; q < wr.idx; q++ {
-						if k, ok := t.lastStore[t.pkts[q].Seq]; ok && k < t.nStoreOut {
-							wr.gap = append(wr.gap, [2]int{q, k})
-						}
-					}
-				}
-				st.maxIdx = wr.idx
-			}
 			return
 		}
 		if l := w.inflight[task]; len(l) > 0 {
@@ -1153,9 +1184,13 @@ func (w *recWorld) installProbes() {
 		if st == nil || st.trk == nil || pk == nil {
 			return
 		}
+		w.noteGap(st)
 		i := int(uint16(pk.SequenceNumber - st.trk.sp.StartSeq))
 		if i < len(st.trk.pkts) {
 			st.pushOrder = append(st.pushOrder, i)
+			if i > st.maxIdx {
+				st.maxIdx = i
+			}
 		}
 	})
 	// a sender report that moves the time origin of a track forward after it
@@ -1201,6 +1236,7 @@ func (w *recWorld) installProbes() {
 		t := st.trk
 		seq, _ := args[1].(uint16)
 		if enter {
+			w.noteGap(st)
 			w.c.Count("probe.fetch", 1)
 			wr.fetchK, wr.fetchIdx = -1, -1
 			i := int(uint16(seq - t.sp.StartSeq))
